@@ -274,4 +274,7 @@ def teardown(loop: VLoop) -> None:
 def _reset_globals() -> None:
     from repid._processor import _Processor
 
-    _Processor.actor_run._repid_signal_emitter = None
+    ar = _Processor.__dict__.get("actor_run")
+    if hasattr(ar, "_repid_signal_emitter") or hasattr(getattr(ar, "__func__", None), "_repid_signal_emitter"):
+        # class-level wrapper (older trees): reset what the last runner left behind
+        getattr(ar, "__func__", ar)._repid_signal_emitter = None
